@@ -208,7 +208,7 @@ REQ = {"identical": 0.1, "shared_start": 0.1, "shared_end": 0.15, "touching": 0.
 
 def campaigns(tier: str) -> List[Campaign]:
     return [
-        Campaign("direct", span_family(), check_direct, quick=3200, thorough=320000, quick_shards=8,
+        Campaign("direct", span_family(), check_direct, quick=3200, thorough=320000, quick_shards=8, fuzz_runs=80000,
                  required_classes=REQ, sample_view=view),
         Campaign("via_file", span_family(max_events=16), check_file, quick=240, thorough=16000, quick_shards=8,
                  required_classes={"touching": 0.1}, sample_view=view),
